@@ -45,12 +45,15 @@ async fn run_case(addr: SocketAddr, certs: &Certs, codec: &str, algo: &str, fram
             for f in frames { s.send(frame_of(f)).await?; }
             let mut outs: Vec<String> = vec![];
             let mut tail = "open";
+            // how long nothing has to come before the subscriber counts as at rest: thousands of frames that yield nothing
+            // take their time on a busy machine
+            let quiet_ms: u64 = if frames.len() > 1000 { 8000 } else { 400 };
             // the subscriber is driven by a task of its own: a panic inside it is an observation, not the harness's end
             let h = tokio::spawn(async move {
                 let mut v = vec![];
                 let mut tail = "open";
                 loop {
-                    match tokio::time::timeout(Duration::from_millis(220), sub.next()).await {
+                    match tokio::time::timeout(Duration::from_millis(quiet_ms), sub.next()).await {
                         Err(_) => break,
                         Ok(None) => { tail = "end"; break; }
                         Ok(Some(Ok(x))) => v.push(format!("ok:{}", hx(&$show(x)))),
